@@ -1903,9 +1903,6 @@ class SQLModel:
         ct = record_spec.control_table
         dm = data_algebra.data_model.lookup_data_model_for_dataframe(ct)
         ct = dm.to_pandas(ct)
-        control_value_cols = [
-            c for c in ct.columns if c not in record_spec.control_table_keys
-        ]
         control_cols = [
             "a." + self.quote_identifier(c) for c in record_spec.record_keys
         ] + [
@@ -1917,18 +1914,19 @@ class SQLModel:
             col_stmts.append(
                 " a." + self.quote_identifier(c) + " AS " + self.quote_identifier(c)
             )
-        for key_col in record_spec.control_table_keys:
-            col_stmts.append(
-                " b."
-                + self.quote_identifier(key_col)
-                + " AS "
-                + self.quote_identifier(key_col)
-            )
         seen = set()
-        for result_col in control_value_cols:
+        for result_col in ct.columns:  # the order of record_spec.block_columns
             if result_col in seen:
                 continue
             seen.add(result_col)
+            if result_col in record_spec.control_table_keys:
+                col_stmts.append(
+                    " b."
+                    + self.quote_identifier(result_col)
+                    + " AS "
+                    + self.quote_identifier(result_col)
+                )
+                continue
             cstmt = " CASE "
             col = ct[result_col]
             isnull = col.isnull()
@@ -2000,8 +1998,8 @@ class SQLModel:
         ]
         control_cols = [self.quote_identifier(c) for c in record_spec.record_keys]
         seen = set()
-        for i in range(ct.shape[0]):
-            for vc in control_value_cols:
+        for vc in control_value_cols:  # column by column: the order of record_spec.row_columns
+            for i in range(ct.shape[0]):
                 col = ct[vc]
                 isnull = col.isnull()
                 if col[i] not in seen and not isnull[i]:
